@@ -640,7 +640,26 @@ CHATTER_TEMPLATES = [
 LONG_CHATTER = [4095, 4096, 4097, 8191, 8192, 8193, 12288, 65536, 70001, 1023, 1024, 1025]
 
 
+# the program's own terminal colours in its own output: passed through as they are (C08: "that line's own text")
+ESC_CHATTER = [
+    '\x1b[1;31merror:\x1b[0m could not load icon theme', '\x1b[32mok', 'plain \x1b[4munderlined', '\x1b[0m',
+    '\x1b[38;5;208mwarn\x1b[m: low memory', 'x \x1b[31m y \x1b[0m z \x1b[1m', '\x1b[2K\x1b[1Gprogress 50%',
+]
+# the front part of a message line, cut off (a crashed or interrupted writer; a string argument with a newline in it): not a
+# message, so passed through as it is, at once
+TORN_CHATTER = [
+    '[1234567.890]  -> wl_surface@7.set_title("half a titl', '[ 100.123] xdg_toplevel@9.configure(0, 0, arr',
+    '[1.500] {Default Queue} wl_x#3.y("abc', '[3.300]  -> wl_shell_surface@12.set_title("a, b (c',
+    '[2.000] wl_data_offer@4278190081.offer("text/pl', '[2.000] <5> zwp_text_input_v3#8.commit_string("line one',
+    '[4.125]  -> wl_display@1.sync(new id wl_callb', '[4.125] wl_keyboard@5.keymap(1, fd 7, ',
+]
+
+
 def chatter_text(k, r):
+    if k >= 2000000:
+        return TORN_CHATTER[k % len(TORN_CHATTER)]
+    if k >= 1000000:
+        return ESC_CHATTER[k % len(ESC_CHATTER)]
     t = CHATTER_TEMPLATES[k % len(CHATTER_TEMPLATES)]
     if r % 3 == 0 and t.strip():
         t = t + ' ' + str(r % 1000)
